@@ -30,6 +30,11 @@ PROP = dict(
           "mailbox after AddLink (not lost), un-acked responses are handed over again at a relink (legitimate), "
           "and once the incoming link committed and acked a response (forwarding-package ack, DeleteCircuits, "
           "MailBox.AckPacket) no settle/fail for that HTLC may be handed over again at any later AddLink. "
+          "Action ackTick forces the switch's AckEventTicker (flush of the settle/fail acks the switch queued in "
+          "memory); the model persists only the acks of response copies whose circuit was already gone, so a "
+          "response that was duplicated while the first copy was still un-committed must still be re-forwarded "
+          "from the forwarding package after tick + switch restart (label "
+          "lc:refwd_after_tick_after_dup_uncommitted). "
           "Non-trivial = a parked response was handed over at AddLink, a response was relayed while the link "
           "was removed, or a link was re-added while it had an un-acked response / after it had acked one. "
           "(3) TestVerifC07Race: 2-3 goroutines on one circuit; non-trivial = >=2 calls competed for the "
@@ -56,7 +61,13 @@ PROP = dict(
         "reset courier hands over), not off the outbox channel, so no waits are needed; only a registered link "
         "forwards/accepts/commits/responds; contract resolution messages are generated only for committed "
         "outgoing HTLCs of channels that currently have no link (channel went to chain); forwarding packages "
-        "are never garbage-collected",
+        "are never garbage-collected; the AckEventTicker of the life-cycle switch has a 24 h interval and fires "
+        "only when the ackTick action forces it (tick delivered on the Force channel, then the barrier command, "
+        "both handled by the forwarder goroutine: the AckSettleFails flush is complete when the barrier returns); "
+        "the switch may queue the ack of a forwarding-package entry only for a response copy that finds no circuit "
+        "(the incoming link committed it / the local payment completed), never for one whose circuit is open or "
+        "closing; whether a legitimately queued ack was persisted before a restart is not observable (the "
+        "re-forwarded copy finds no circuit)",
         "write failures are injected as a failing bbolt transaction of CommitCircuits/OpenCircuits/"
         "DeleteCircuits/NewCircuitMap; TrimOpenCircuits write failures are not injected (no documented "
         "rollback contract)",
